@@ -30,6 +30,8 @@ type c19case struct {
 	InitHere   string   `json:"init_here"`                 // for --init from a nested dir: "" | "file" | "dir" (a spokfile already exists in cwd)
 	SpokIsFile bool     `json:"dot_spok_is_a_file"`        // a regular file named .spok sits where the cache directory would go
 	Linked     bool     `json:"linked_spokfile,omitempty"` // the project's spokfile is a symbolic link to ../common/spokfile
+	StalePWD   bool     `json:"stale_pwd,omitempty"`       // $PWD names another existing project directory (a stale value inherited from a caller)
+	Env        int      `json:"ambient_env,omitempty"`     // core.HostileEnv variant
 }
 
 func (k c19case) key() string { b, _ := json.Marshal(k); return string(b) }
@@ -97,7 +99,9 @@ func c19Prog(r *core.Rng) gen.Prog {
 		}
 		nc := r.Range(0, 3)
 		for c := 0; c < nc; c++ {
-			st.Cmds = append(st.Cmds, core.Pick(r, []string{"true", "printf hello", "test 1 = 1", "printf '%s' '{{.VERSION}}'", "printf x >&2", "true && true"}))
+			st.Cmds = append(st.Cmds, core.Pick(r, []string{"true", "printf hello", "test 1 = 1", "printf '%s' '{{.VERSION}}'", "printf x >&2", "true && true", "printf 'a\tb'", "printf 'x  y' ", "printf '%s' \"q\"\t",
+				// failing commands have no side effects either
+				"false", "test -s missing-input.txt", "exit 3"}))
 		}
 		defined = append(defined, st.Name)
 		p.Stmts = append(p.Stmts, st)
@@ -152,6 +156,8 @@ func c19Gen(r *core.Rng) c19case {
 	k.Nested = r.Chance(35)
 	k.GitIgnore = r.Chance(50)
 	k.SpokIsFile = r.Chance(8)
+	k.StalePWD = r.Chance(15)
+	k.Env = r.Intn(4)
 	k.Linked = k.Variant != "none" && k.Variant != "directory" && r.Chance(12)
 	var tasks []string
 	for _, st := range p.Stmts {
@@ -219,6 +225,8 @@ func c19Judge(c *core.Ctx, k c19case, res *core.ShardResult) (vs []core.Violatio
 	_ = os.MkdirAll(filepath.Join(proj, "nested", "dir"), 0o755)
 	_ = os.WriteFile(filepath.Join(home, "above.txt"), []byte("above"), 0o644)
 	_ = os.WriteFile(filepath.Join(home, ".profile"), []byte("export X=1\n"), 0o644)
+	// another project beside this one (what a stale $PWD points at)
+	_ = core.WriteFiles(filepath.Join(home, "otherproj"), map[string]string{"spokfile": "# the other project\ntask other(\"*.txt\") -> \"o.bin\" {\n    true\n}\n", "x.txt": "x\n", "o.bin": "o\n", ".gitignore": "old\n", "sub/keep": "k\n"})
 	files := map[string]string{}
 	for _, f := range k.Files {
 		files[f] = "content of " + f + "\n"
@@ -316,7 +324,12 @@ func c19Judge(c *core.Ctx, k c19case, res *core.ShardResult) (vs []core.Violatio
 	}
 	before := core.Snap(root)
 	traceFile := filepath.Join(root, "strace.out")
-	inv := core.RunSpok(core.SpokOpts{Bin: c.SpokRace(), Dir: cwd, Home: home, Args: args, Prefix: core.StracePrefix(traceFile)})
+	env := core.HostileEnv(k.Env, home)
+	if k.StalePWD {
+		env = append(env, "PWD="+filepath.Join(home, "otherproj"), "OLDPWD="+filepath.Join(home, "otherproj", "sub"))
+		res.Count("cases_with_a_stale_pwd", 1)
+	}
+	inv := core.RunSpok(core.SpokOpts{Bin: c.SpokRace(), Dir: cwd, Home: home, Args: args, Env: env, Prefix: core.StracePrefix(traceFile)})
 	res.Evaluations++
 	events, terr := core.ParseStrace(traceFile, cwd)
 	if terr != nil {
